@@ -26,6 +26,15 @@ ck.regen()
 mods = ck.props_modules()
 if mods:
     ck.lean(mods)
+    ck.require_theorems(['LbzVerif.Props.C12.race_free',
+                         'LbzVerif.Props.C12.owner_unique',
+                         'LbzVerif.Props.C12.guarded_under_lock',
+                         'LbzVerif.Props.C12.unlocked_phase_private',
+                         'LbzVerif.Props.C12.copy_race_free',
+                         'LbzVerif.Props.C12.step_annotated'])
+sys.path.insert(0, os.path.dirname(os.path.abspath(__file__)))
+import inproc  # noqa: E402
+inproc.run_libs(ck, ['w14_race'])
 exe = ck.build_lbzip2('lbzip2-tsan', tsan=True, asan=False, ndebug=True)
 rng = ck.rng
 evals = nontriv = 0
